@@ -3046,7 +3046,7 @@ void MessageField :: TemplatedFlatten(const MessageField * optPayloadField, uint
    }
    else
    {
-      if (optPayloadField)
+      if ((optPayloadField)&&(numItemsInTemplateField > 0))  // a field that was received with no items in it has nothing to take from the payload
       {
          if (numItemsInPayloadField >= numItemsInTemplateField)
          {
